@@ -26,7 +26,7 @@ RULE = (
     "it; get_command_eof never equals a line of the text; executing get_wrapped_command(text) with a "
     "#!/bin/cat interpreter (given, or passed as default_shell) prints text + newline byte for byte and "
     "exits 0. staging: generated nested list/tuple/dict structures of File/IFile/Dir staging pairs, "
-    "self-staged files, File('-') and plain values, with file names containing spaces, quotes, $, ;, "
+    "self-staged files, one local output file published to a second remote, File('-') and plain values, with file names containing spaces, quotes, $, ;, "
     "*, backslash and backtick; run script() through a real Scheduler (default local executor); the "
     "generated command records every input it finds at its local path and writes token+input content "
     "to every output. Oracle: the record shows every input present with its content; every output "
@@ -221,6 +221,9 @@ def _out_leaf():
         st.tuples(st.just("dir"), name_st,
                   st.dictionaries(st.sampled_from(["x", "y z", "sub/w"]), token_st, min_size=1, max_size=2)
                   .map(lambda d: [[k, v] for k, v in sorted(d.items())])).map(list),
+        # one local file published to a SECOND remote: a further staging pair that shares the
+        # local path of an earlier file output of the same call (acts as a plain file if none)
+        st.tuples(st.just("mirror"), name_st, st.integers(0, 5)).map(list),
         st.just(["stdout"]),
         st.tuples(st.just("val"), st.one_of(st.none(), st.integers(-3, 3), st.sampled_from(["", "s", "-"]))).map(list),
     )
@@ -228,9 +231,13 @@ def _out_leaf():
 
 @st.composite
 def _outputs(draw):
-    shape = draw(st.sampled_from(["leaf", "list", "dict", "tuple", "nested", "nested", "free"]))
+    shape = draw(st.sampled_from(["leaf", "list", "dict", "tuple", "nested", "nested", "free", "mirrored"]))
     if shape == "leaf":
         return draw(_out_leaf())
+    if shape == "mirrored":
+        f = ["file", draw(name_st), draw(st.one_of(st.none(), st.integers(0, 5))), draw(token_st), "File"]
+        rest = draw(st.lists(_out_leaf(), max_size=2))
+        return ["dict", [["primary", f], ["mirror", ["mirror", draw(name_st), 0]]] + [[f"k{i}", x] for i, x in enumerate(rest)]]
     if shape == "free":
         return draw(_containers(st.recursive(_out_leaf(), _containers, max_leaves=5)))
     leaves = draw(st.lists(_out_leaf(), min_size=2, max_size=4))
@@ -386,9 +393,21 @@ class _Plan:
                 content += src[1]
             self.cmd_out.append("{ " + write + "; } > " + q(local))
             self.out_checks.append(("file", remote, content))
+            if k == "file":
+                self.__dict__.setdefault("_staged_files", []).append((local, content))
             cls = getattr(self.rfile, spec[4]) if k == "file" else self.rfile.File
             obj = cls(remote).stage(local) if k == "file" else cls(remote)
             return obj, ("$file", cls.__name__, remote)
+        if k == "mirror":
+            self.n_out += 1
+            name = self._name(spec[1])
+            remote = os.path.join(self.R, "outm-" + name)
+            staged = getattr(self, "_staged_files", [])
+            if not staged:
+                return self._build_out(["file", spec[1], None, "m", "File"])
+            local, content = staged[spec[2] % len(staged)]
+            self.out_checks.append(("file", remote, content))
+            return self.rfile.File(remote).stage(local), ("$file", "File", remote)
         if k == "dir":
             self.n_out += 1
             name = self._name(spec[1])
